@@ -508,6 +508,17 @@ Definition disc_ufunc (NP : npsem) (st : store) (ds : dspace) (nout : nat) (m : 
       end
   end.
 
+(* ---------------- legacy x.ufuncs wrappers of tensor-like elements ---------------- *)
+(* odl/util/ufuncs.py: the binary wrapper and sum / prod / min / max hand
+   out=_as_out_tuple(out) to __array_ufunc__ : a tuple is passed on as it is
+   (NumPy's form out=(o,)), anything else is wrapped into a 1-tuple *)
+Inductive legacy_out := LOne (o : option operand) | LTuple (l : list (option operand)).
+Definition as_out_tuple (o : legacy_out) : list (option operand) :=
+  match o with LTuple l => l | LOne x => [x] end.
+Definition legacy_tens_call (NP : npsem) (st : store) (sp : tspace) (m : meth)
+           (ins : list operand) (kw : kwargs) (o : legacy_out) : res (list operand * store) :=
+  tens_ufunc NP st sp 1 m ins kw (as_out_tuple o).
+
 (* ---------------- element wrapping / asarray ---------------- *)
 (* NumpyTensorSpace.element(arr) for a writeable ndarray: np.array(arr, copy=False,
    dtype=space.dtype) shares the buffer iff the dtype matches; shape must match *)
